@@ -951,8 +951,14 @@ coap_session_disconnected_lkd(coap_session_t *session, coap_nack_reason_t reason
 
   while (q) {
     if (q->session == session) {
-      /* Take the first one */
-      coap_handle_nack(session, q->pdu, reason, q->id);
+      /*
+       * Take the first one.
+       * Unless the message stays queued (ICMP issue), a Confirmable one is
+       * reported when the session's messages are cancelled below: once.
+       */
+      if (reason == COAP_NACK_ICMP_ISSUE ||
+          q->pdu->type != COAP_MESSAGE_CON)
+        coap_handle_nack(session, q->pdu, reason, q->id);
       sent_nack = 1;
       break;
     }
